@@ -36,6 +36,24 @@ CLAIMED = {
     "C12": ("structural monitors (type/scope checkers for Core, uniquified Core, focused Core, AxCut, linear AxCut) on every value the real stages produce; panics caught around every stage and all three code generators",
             "Held on K accepted programs; capacity assertions are counted, not judged.",
             "Trusted: the harness' checkers (DESIGN 4).", "6/C12"),
+    "C14": ("static label-table and operand-range monitor over every instruction of the printed text of all three backends; GNU as (x86-64, after syntax-only transliteration) and clang's integrated assembler (AArch64) as acceptance oracles; jump-table stride measured from the objects' symbol tables; second pass re-using generated definition names",
+            "Held on K emitted files per backend (hostile identifiers, large jump tables, boundary literals).",
+            "Trusted: the per-ISA operand-range tables of the harness; GNU as stands in for yasm (not installed); RISC-V output is pseudo-assembly, judged by the harness' validator only.", "6/C14"),
+    "C15": ("acceptance monitor on well-typed-by-construction programs plus 26 classes of certainly ill-typed single edits applied at recorded syntactic sites; oracle = result of parse_module + Program::check",
+            "Held on K generated programs and N mutants; per-class counts of applied and rejected mutants are in the evidence.",
+            "Trusted: the generator's own typing discipline (DESIGN appendix A).", "6/C15"),
+    "C17": ("byte comparison of every printable stage output across fresh processes with different environments (harness child processes and the real scc binary) and after other compilations in the same process (labels renamed by first occurrence)",
+            "Held on K programs x N fresh processes; evidence reports the number of distinct outputs per stage (must be 1).",
+            "Trusted: the OS gives each process a fresh hash seed.", "6/C17"),
+    "C18": ("fault-injection style input fuzzing: token/character mutations, nesting, special programs; panics caught in-process (8 MiB stack like the real tool), aborts/timeouts attributed through a current-case file, real scc binary on a sample",
+            "Held on K inputs (valid UTF-8); termination judged as bounded progress (60 s per input).",
+            "Trusted: catch_unwind + process-level attribution; later stages judged only for accepted programs with a valid main.", "6/C18"),
+    "C19": ("size monitor on 14 scalable program families with source linear in k: every stage output may grow at most 12x when k doubles (k = 4..16)",
+            "Held on the listed families up to k = 16; nothing is claimed for other program shapes.",
+            "Trusted: printed size / instruction count as the size measure.", "6/C19"),
+    "C20": ("clang ASan+UBSan build of io.c driven with boundary and random values; native x86-64 one-line programs for 0..5 parameters incl. wrong argument counts; AArch64 entry shuffle on the emulator for 0..7 parameters",
+            "Held on K values / runs.",
+            "Trusted: clang sanitizer runtimes, host libc, the AArch64 emulator.", "6/C20"),
     "C16": ("round-trip monitor parse(print(parse(t),w,i)) == parse(t) and print idempotence over widths 1..200 x indents 0..8 on generated noisy texts; scc fmt --inplace on a sample",
             "Held on K parsed programs x N (width, indent) configurations.",
             "Trusted: the derived span-ignoring equality of the syntax tree.", "6/C16"),
